@@ -1,10 +1,13 @@
 (* C08 — Additive and multiplicative resources accumulate up the hierarchy.
-   Proved: the pieces the accumulation is made of.  Exercised by the stream (partial): their composition over
-   the whole tree, i.e. that the real compiled value at every node equals the bottom-up denotation whose
-   accumulation clause is "sum/product over exactly the children that have the resource", and the weighted
-   leaf-sum consequence. *)
+   Proved: for EVERY non-repeated routine the compile model compiles (any depth), a propagated additive
+   (multiplicative) resource -- the sum (product) of references `child.x` that preprocessing installs -- gets a
+   value which at every point is the sum (product) of the children's own compiled values of x
+   (C08_propagated_sum_accumulates / _product_); the routine's own explicit definition is never replaced; the
+   repetition weights are linear in the child's value.  Exercised by the stream: that the propagated resources are
+   installed for exactly the children that have the resource with a propagating type, repeated routines, and the
+   weighted leaf-sum consequence (real compiled values vs the bottom-up denotation at every node). *)
 From Coq Require Import List String QArith.
-From Bq Require Import Expr StdSem Rep RepModel Routine Compile Preprocess AccumulateFacts.
+From Bq Require Import Expr StdSem Rep RepModel Routine Compare Compile Preprocess AccumulateFacts QrefFacts ChildRefFacts.
 From BqGen Require Import GenRepetitions.
 Import ListNotations.
 Open Scope string_scope.
@@ -20,6 +23,39 @@ Theorem C08_propagated_product : forall r (cs : list string) x,
   evalT r (EOp OMul (map (fun cn => ESym (dot cn x)) cs)) == fold_right Qmult 1 (map (fun cn => r (dot cn x)) cs).
 Proof. exact evalT_prod_of_symbols. Qed.
 Print Assumptions C08_propagated_product.
+
+(* ... and in the compiled tree the references are the children's OWN compiled values: for every routine r the
+   compile model compiles (go at any fuel: the root or any descendant), not repeated, with distinct dot-free child
+   names and distinct resource names *)
+Theorem C08_propagated_sum_accumulates : forall fuel r inputs t,
+  go ev_subst statusE fv fuel r inputs = Ok t -> rrep r = None ->
+  NoDup (map r_name (rresources r)) ->
+  (forall k, In k (ct_children t) -> no_dot (ct_name k) = true) -> NoDup (map (@ct_name expr) (ct_children t)) ->
+  forall x ty (cs : list string),
+    In (Build_resource x ty (EOp OAdd (map (fun c => ESym (dot c x)) cs))) (rresources r) ->
+    (forall c, In c cs -> exists v, child_value t c x = Some v) ->
+    exists V, lookup x (ct_resources t) = Some (ty, V) /\
+              forall rho, evalT rho V == fold_right Qplus 0 (map (fun c => match child_value t c x with
+                                                                             | Some v => evalT rho v
+                                                                             | None => 0
+                                                                             end) cs).
+Proof. exact propagated_sum_is_sum_of_children. Qed.
+Print Assumptions C08_propagated_sum_accumulates.
+
+Theorem C08_propagated_product_accumulates : forall fuel r inputs t,
+  go ev_subst statusE fv fuel r inputs = Ok t -> rrep r = None ->
+  NoDup (map r_name (rresources r)) ->
+  (forall k, In k (ct_children t) -> no_dot (ct_name k) = true) -> NoDup (map (@ct_name expr) (ct_children t)) ->
+  forall x ty (cs : list string),
+    In (Build_resource x ty (EOp OMul (map (fun c => ESym (dot c x)) cs))) (rresources r) ->
+    (forall c, In c cs -> exists v, child_value t c x = Some v) ->
+    exists V, lookup x (ct_resources t) = Some (ty, V) /\
+              forall rho, evalT rho V == fold_right Qmult 1 (map (fun c => match child_value t c x with
+                                                                             | Some v => evalT rho v
+                                                                             | None => 1
+                                                                             end) cs).
+Proof. exact propagated_product_is_product_of_children. Qed.
+Print Assumptions C08_propagated_product_accumulates.
 
 (* a routine's own explicit definition takes precedence: propagation never replaces or retypes it *)
 Theorem C08_explicit_definition_kept : forall r r' x rs,
